@@ -367,6 +367,36 @@ def check_callback_list(ctx, r, b, site, fcont, kb=None):
                            _reaches_apply(ctx, Site(b, l[2], b.blocks[l[2]]["term"])) for l in src) and \
                     b.dominates(s2.bb, site.bb):
                 fills.append(s2)
+        # callback form: the apply step reports each freed hash through a closure that pushes it (`apply_with(op, |h|
+        # freed.push(h))`): a closure that captures the list mutably, does nothing but push its argument, and is handed to
+        # the apply call, is the apply step's result
+        cb_fill = None
+        if not fills:
+            for s3 in b.calls():
+                if not _reaches_apply(ctx, b.orig_site(s3) if getattr(b, "is_flat", False) else s3):
+                    continue
+                for a in s3.term["args"]:
+                    pl = place_of(a)
+                    cd = prog.closure_def_of_type(b.locals[pl["l"]]) if pl is not None and not pl["p"] else None
+                    cb = prog.bodies.get(cd) if cd else None
+                    if cb is None:
+                        continue
+                    caps = [rv for (dbb, j, rv) in b.assignments().get(pl["l"], []) if j != "term" and rv["k"] == "agg"
+                            and rv.get("ak") == "closure"]
+                    # (the list the closure fills: the delete-site list itself, or the local it was moved out of)
+                    born = set([V] + [b.blocks[l[2]]["term"]["dest"]["l"] for l in lv
+                                      if l[0] == "call" and not isinstance(l[2], tuple)])
+                    if len(caps) != 1 or not any(ctx.world.borrowed_local(b, o) in born for o in caps[0]["ops"]):
+                        continue
+                    calls = [c for c in cb.calls()]
+                    csl = Slicer(ctx.world, cb)
+                    if calls and all((c.path or "") == "std::vec::Vec::push" and len(c.term["args"]) == 2 and
+                                     all(l[0] == "param" and l[1] >= 2 for l in csl.leaves_of_operand(c.term["args"][1]))
+                                     for c in calls) and b.dominates(s3.bb, site.bb):
+                        cb_fill = s3
+        if cb_fill is not None:
+            ok_src = True
+            lv = {("call", cb_fill.path, cb_fill.bb, ())}
         if fills:
             ok_src = True
             lv = set(l for s2 in fills for l in sl.leaves_of_operand(s2.term["args"][1]))
